@@ -3,12 +3,12 @@ import json, os, sys
 HERE = os.path.dirname(os.path.dirname(os.path.abspath(__file__)))
 sys.path.insert(0, HERE)
 import importlib
-from harness.meta import NOT_APPLICABLE, HOOK_COMMITS
+from harness.meta import NOT_APPLICABLE, HOOK_COMMITS, READY
 META = {}
 for f in sorted(os.listdir(os.path.join(HERE, 'harness', 'props'))):
     if f.startswith('c') and f.endswith('.py') and f[1:-3].isdigit():
         mod = importlib.import_module('harness.props.' + f[:-3])
-        if getattr(mod, 'META', None):
+        if getattr(mod, 'META', None) and f[:-3].upper() in READY:
             META[f[:-3].upper()] = mod.META
 props = [json.loads(l)['id'] for l in open(os.path.join(HERE, 'properties.jsonl'))]
 checks = []
